@@ -15,7 +15,7 @@ import time
 
 from .core import HarnessError
 
-LINE_FILES = ("runner_local.py", "storage_base.py", "call_stack.py", "runner.py")
+LINE_FILES = ("runner_local.py", "storage_base.py", "call_stack.py", "runner.py", "storage_filesystem.py")
 MARK = os.sep + os.path.join("twosigma", "memento") + os.sep
 
 _active = None           # the Scheduler currently running, if any
